@@ -37,7 +37,7 @@ func genOnce(t *rapid.T) OnceCase {
 		case "resolve":
 			op.Pre = rapid.IntRange(0, 7).Draw(t, "pre") == 0
 		case "finish":
-			op.Out = rapid.SampledFrom([]string{"value", "err", "err", "ctxerr", "wrapctxerr"}).Draw(t, "out")
+			op.Out = rapid.SampledFrom([]string{"value", "err", "err", "ctxerr", "wrapctxerr", "valerr"}).Draw(t, "out")
 			op.Pick = rapid.IntRange(0, 3).Draw(t, "pick")
 		case "cancel":
 			op.Pick = rapid.IntRange(0, 5).Draw(t, "pick")
@@ -138,6 +138,10 @@ func body16(c *sched.Ctl, cs OnceCase, v *ev.Verdict) {
 		case "value":
 			inv.val = 100 + inv.id
 			succeeded, successVal = true, inv.val
+		case "valerr":
+			// a failure that also carries a (non-zero) value
+			inv.val = 100 + inv.id
+			inv.err = fmt.Errorf("fn-error-%d", inv.id)
 		case "ctxerr":
 			if inv.ctx != nil && inv.ctx.Err() != nil {
 				inv.err = inv.ctx.Err()
@@ -215,6 +219,10 @@ func body16(c *sched.Ctl, cs OnceCase, v *ev.Verdict) {
 			}
 			hm.Unlock()
 			ctx, cancel := context.WithCancel(context.Background())
+			if cl.id%3 == 0 {
+				// a context that ends like an expired deadline: Err() is DeadlineExceeded
+				ctx = deadlineLike{ctx}
+			}
 			cl.cancel = cancel
 			if op.Pre && !cs.Memo {
 				cancel()
@@ -263,8 +271,8 @@ func body16(c *sched.Ctl, cs OnceCase, v *ev.Verdict) {
 					if !cs.Memo && cl.forbidden[err] {
 						fail("once:stale-error", "caller #%d was issued after another caller had already received %v, yet it returned that same error instead of calling the function again", cl.id, err)
 					}
-					if cs.Memo && (len(invs) == 0 || invs[0].err != err) {
-						fail("memo:wrong-result", "caller #%d returned %v, the single invocation returned %v", cl.id, err, invs[0].err)
+					if cs.Memo && (len(invs) == 0 || invs[0].err != err || invs[0].val != val) {
+						fail("memo:wrong-result", "caller #%d returned (%d, %v), the single invocation returned (%d, %v)", cl.id, val, err, invs[0].val, invs[0].err)
 					}
 				}
 			})
@@ -398,4 +406,15 @@ func TestC16(t *testing.T) {
 		Gen:  genOnce,
 		Run:  run16,
 	})
+}
+
+// deadlineLike is a context whose Err() reports context.DeadlineExceeded once its
+// Done channel is closed; a caller using it must still be told context.Canceled.
+type deadlineLike struct{ context.Context }
+
+func (d deadlineLike) Err() error {
+	if d.Context.Err() != nil {
+		return context.DeadlineExceeded
+	}
+	return nil
 }
